@@ -92,7 +92,8 @@ PROPS['C03'] = {
     'theorems': ['Yabgp.C03_contract_holds', 'Yabgp.timInv_step', 'Yabgp.C03_rest_keeps_timers', 'Yabgp.C03_contract_survives_rest',
                  'Yabgp.C03_keepalive_deadline_moves_only_when_sent', 'Yabgp.C03_hold_deadline_moves_only_on_arrival',
                  'Yabgp.C03_deadlines_fixed_by_other_events', 'Yabgp.C03_clock_never_passes_a_deadline',
-                 'Yabgp.C03_hold_time_fixed_in_session', 'Yabgp.C01_keepalive_timer_expires',
+                 'Yabgp.C03_hold_time_fixed_in_session', 'Yabgp.C03_opensent_entry', 'Yabgp.C03_opensent_deadline_fixed',
+                 'Yabgp.C03_opensent_timers', 'Yabgp.C03_opensent_only_hold_ends_the_wait', 'Yabgp.C01_keepalive_timer_expires',
                  'Yabgp.C01_hold_timer_expires', 'Yabgp.C01_keepalive_msg', 'Yabgp.C01_update_msg',
                  'Yabgp.C01_open_accepted', 'Yabgp.C01_tcp_connected'],
     'genagree': SESSION_GEN,
@@ -105,7 +106,9 @@ PROPS['C03'] = {
                   'repetition - one-step theorems that the deadlines move only for the right reason: while the session lasts '
                   'the KEEPALIVE deadline is replaced only by the keepalive timer expiring (a KEEPALIVE is written, the next one '
                   'scheduled exactly H/3 later), the hold deadline only by a chunk that reported a KEEPALIVE or UPDATE (then exactly '
-                  'H after that moment), the hold time itself never, and the clock never passes a deadline. Tied to /repo by the session '
+                  'H after that moment), the hold time itself never, and the clock never passes a deadline; OpenSent is entered only by a TCP '
+                  'connection coming up with the hold timer set exactly 4 minutes ahead, nothing moves that deadline while the agent '
+                  'waits for the OPEN, and no other timer can expire there (Props/C03d.lean). Tied to /repo by the session '
                   'correspondence, which compares the pending reactor call times after every event.',
 }
 
